@@ -137,7 +137,6 @@ def run(ctx):
     # ---- correspondence: the parser mirror on the rendered texts (the renderer's own layout and spelling)
     if ctx.model_available:
         idx = [i for i, r in enumerate(rendered) if r is not None]
-        if ctx.quick(): idx = idx[:200]
         reqs = ['parse ' + core.hexs(rendered[i]) for i in idx]
         ip = core.run_lines(core.VH, reqs, jobs=12)
         mp = core.run_lines(core.PLCDRV, reqs, jobs=12)
